@@ -487,14 +487,13 @@ Section Ext.
     - destruct k' as [|k']; [lia|]. rewrite !build_message_S.
       apply T_weaken with (G := k < k'); [lia|].
       eapply T_bind with (RA := Rl).
-      + destruct (md_fields d) as [|f0 r0] eqn:Ef; [apply T_refl, Rl_refl|].
-        eapply T_bind.
-        * apply build_field_list_T. intros mn d1 p E. apply IH; [lia|exact (HP _ _ E)].
-        * intros l l' Hl. cbn [T]. eexists. split; [reflexivity|].
-          destruct (o_sort cfg); [|exact Hl]. unfold Rl in *.
-          rewrite <- !(sort_by_map _ (rz_field Z)) by apply rz_field_name. now rewrite Hl.
-      + intros fs fs' Hfs. cbn [T]. eexists. split; [reflexivity|].
-        unfold Rm, Rl in *. rewrite !rz_msg_eq. now rewrite Hfs, (HZ _ Hd).
+      + apply build_field_list_T. intros mn d1 p E. apply IH; [lia|exact (HP _ _ E)].
+      + intros l l' Hl. cbn [T]. eexists. split; [reflexivity|].
+        unfold Rm, Rl in *. rewrite !rz_msg_eq, (HZ _ Hd).
+        (* no field left in the one table iff none in the other *)
+        destruct l as [|c r], l' as [|c' r']; try discriminate Hl; [reflexivity|].
+        f_equal. destruct (o_sort cfg); [|exact Hl].
+        rewrite <- !(sort_by_map _ (rz_field Z)) by apply rz_field_name. now rewrite Hl.
   Qed.
 End Ext.
 
